@@ -53,7 +53,7 @@ func genMessages(rng *rand.Rand, rev int) []msgCase {
 		add("ClientInfo", b.Buf, func(rd *proto.Reader) (string, error) {
 			var d proto.ClientInfo
 			err := d.DecodeAware(rd, rev)
-			return fmt.Sprintf("%+v", refClientInfo(d)), err
+			return infoStr(refClientInfo(d)), err
 		})
 	}
 	if rev >= ref.RevSettingsAsStr {
@@ -70,7 +70,7 @@ func genMessages(rng *rand.Rand, rev int) []msgCase {
 			var d proto.Query
 			err := d.DecodeAware(rd, rev)
 			d.Info.Span = libSpan(refSpan(d.Info.Span))
-			return fmt.Sprintf("%q %q %q %v %v %+v %+v %+v", d.ID, d.Body, d.Secret, d.Stage, d.Compression, d.Settings, d.Parameters, refClientInfo(d.Info)), err
+			return fmt.Sprintf("%q %q %q %v %v %+v %+v %+v", d.ID, d.Body, d.Secret, d.Stage, d.Compression, d.Settings, d.Parameters, infoStr(refClientInfo(d.Info))), err
 		})
 	}
 	{
@@ -146,4 +146,13 @@ func genMessages(rng *rand.Rand, rev int) []msgCase {
 		})
 	}
 	return out
+}
+
+func infoStr(c ref.ClientInfo) string {
+	t := "<nil>"
+	if c.Trace != nil {
+		t = fmt.Sprintf("%+v", *c.Trace)
+	}
+	c.Trace = nil
+	return fmt.Sprintf("%+v trace=%s", c, t)
 }
